@@ -12,6 +12,7 @@ All numbers are exact rationals (`n/d`); the real code's floats are sent as thei
   dhitem <id> <k>                        dH of the k-th member of a `set`
   iso <id> n=.. H0=.. H1=..              isothermal reaction of flows n; H0/H1 = recorded stream.H before/after
   adia <id> Q=.. n=.. H0=.. Hgot=.. eps=..   adiabatic reaction; Hgot = recorded stream.H after the H setter
+  sethnet <phases|-> V=.. n=.. Hgot=.. eps=..   `stream.Hnet = V` on flows n; Hgot = recorded stream.H afterwards
 -/
 namespace Driver.C06
 open ThermoVerif.ReactionEnergy Driver
@@ -212,6 +213,18 @@ def step (st : St) (line : String) : St × String :=
         let sc := scaleOf st.pkg S n [H0, Hgot, Q] + scaleOf st.pkg S n' []
         (st, s!"n={showRats n'} target={showRat target} Hnet0={showRat Hnet0} Hnet1={showRat Hnet1} resid={showRat resid} sc={showRat sc} hyp={hyp}{thm}{fragileSuffix l}")
     | _, _, _, _, _, _ => (st, "bad-op")
+  | "sethnet" :: ph :: rest =>
+    match parsePhases ph, ratsField? rest "n", ratField? rest "V", ratField? rest "Hgot", ratField? rest "eps" with
+    | some phases, some n, some V, some Hgot, some eps =>
+      let S := nSpecies st.pkg phases
+      if n.length ≠ S then (st, "bad-op") else
+      let target := setHnetTarget st.pkg S V n
+      let Hnet1 := hnet st.pkg S Hgot n
+      let resid := Hnet1 - V
+      let hyp := if absR (Hgot - target) ≤ eps then "ok" else "unmet"
+      let sc := scaleOf st.pkg S n [V, Hgot]
+      (st, s!"target={showRat target} Hnet1={showRat Hnet1} resid={showRat resid} sc={showRat sc} hyp={hyp}")
+    | _, _, _, _, _ => (st, "bad-op")
   | _ => (st, "bad-op")
 
 def main : IO Unit := Driver.loop ({} : St) step
